@@ -11,6 +11,8 @@ import expgen
 import farm
 from farm import Found
 
+EXTRA_REPEATS = 4      # workers per fixed extra schema (lib/zoo.py)
+
 
 class Ctx:
     """Per-schema worker context handed to case functions."""
@@ -20,7 +22,7 @@ class Ctx:
         self.ev = common.Evidence(prop, level, tier, seed, rule)
         self.findings = common.Findings()
         self.open_sigs = set(e["sig"] for e in self.findings.open_for(prop))
-        self.wd = os.path.join(lib["dir"], "w")
+        self.wd = os.path.join(lib["dir"], "w%s" % lib.get("rep", ""))
         os.makedirs(self.wd, exist_ok=True)
         self.schema_text = open(lib["exp"]).read()
         self.schema_hash = common.chash(self.schema_text)
@@ -67,13 +69,26 @@ def run(prop, level, rule, tier, seed, n_schemas, n_examples, make_strategy, cas
             ev.inconclusive.append("schema %d did not build (%s): reported by C02, skipped here" % (l["idx"], l["stage"]))
             ev.bump("schemas-not-built")
 
+    # the fixed schemas pack many shapes into one schema: they are explored by several workers with different case seeds
+    n_extra = len(extra_schemas or [])
+    reps = []
+    for l in good:
+        if l["idx"] < n_extra:
+            for r in range(1, EXTRA_REPEATS):
+                reps.append(dict(l, rep=r))
+    good = good + reps
+
     def worker(lib):
-        ctx = Ctx(prop, lib, common.sub_seed(seed, prop, "cases", lib["idx"]), tier, rule, level)
+        cseed = common.sub_seed(seed, prop, "cases", lib["idx"], lib["rep"]) if lib.get("rep") else common.sub_seed(seed, prop, "cases", lib["idx"])
+        ctx = Ctx(prop, lib, cseed, tier, rule, level)
         strat = make_strategy(lib)
         found = farm.explore(lambda x: case_fn(ctx, x), strat, n_examples, ctx.seed)
         for t in expgen.tags(lib["schema"]):
             ctx.ev.bump("schema:" + t)
-        ctx.ev.bump("schemas")
+        if not lib.get("rep"):
+            ctx.ev.bump("schemas")
+        else:
+            ctx.ev.bump("extra-workers-on-fixed-schemas")
         shutil.rmtree(ctx.wd, ignore_errors=True)
         return {"ev": ctx.ev.partial(), "found": found, "idx": lib["idx"]}
 
